@@ -105,6 +105,11 @@ package rules
 //   deduplicated into one helper parameterised by (spec, &holder) — holder ↔ spec key read per call site,
 //   build rule follows the parameters through inlined calls (OnInline tags); GlobalFilter's Validate as
 //   a loop over a literal table of the two specs (c02ValidateGlobalTable).
+//   Fourth robustness iteration (r13..r16, all silent): node loop of the jump validator behind a callback
+//   iterator (function literal bound to the helper's single invocation: c02Defs.bindLits / loopsOut);
+//   active-namespace field of Context resolved by role (c02ActiveNsField); UseNamespace storing through
+//   a verified ""→default mapping helper; END flag as an enum-like integer result (c02Flag: "ended" is
+//   the one constant assigned besides the initial value; callers compare with it).
 //   P5 END test precomputed into a bool before the skip test but acted on after it;
 //   P6 skip and END tests as the cases of a tagless switch (in that order), END by early return.
 
@@ -137,6 +142,7 @@ type c02Anchors struct {
 	handleSite                                 ast.Node      // handle, or the call in loopFn through which it is reached
 	chain                                      []*flow.Func  // helpers between loopFn and the Handle call
 	resField, sawField                         *types.Var    // field form: the run-state fields holding the result and the END flag
+	endedExact                                 string        // enum form: the constant (ExactString) of the flag type that means "ended"
 	aliasFn                                    *types.Func   // method of FlowNode naming a node at run time
 }
 
@@ -728,6 +734,10 @@ func c02FlowLoop(c *core.Ctx, a *c02Anchors) {
 			}
 		}
 	}
+	flagEnum := false
+	if boolIdx < 0 {
+		boolIdx, flagEnum = c02FlagResult(sig)
+	}
 	fieldForm := resPath != "" && sig.Results().Len() == 0
 	if !fieldForm && (strIdx < 0 || boolIdx < 0 || resPath != "") {
 		c.Undecide("R-C02-3", cons+"|flow function hands out result and END flag", pos(c, fd), "the flow function neither returns (string, …, bool) nor keeps both in fields of a run-state struct")
@@ -1217,6 +1227,57 @@ func c02FlowLoop(c *core.Ctx, a *c02Anchors) {
 	if sawID != nil {
 		sawKey, sawName = f.VarKey(sawID), sawID.Name
 	}
+	saw := c02Flag{key: sawKey}
+	if flagEnum {
+		// the flag is an enum: "ended" is the one constant it is assigned besides its initial value
+		if sawID == nil {
+			c.Undecide("R-C02-3", cons+"|END is reported to the caller", pos(c, fd), "the flow function reports END through an enum result without keeping it in a variable")
+			return
+		}
+		so := c02Obj(f, sawID)
+		initVal, vals := "", map[string]bool{}
+		okEnum := true
+		ast.Inspect(f.Body, func(n ast.Node) bool {
+			switch x := n.(type) {
+			case *ast.AssignStmt:
+				for i, l := range x.Lhs {
+					if c02Obj(f, l) != so {
+						continue
+					}
+					if len(x.Lhs) != len(x.Rhs) || f.Info.Types[x.Rhs[i]].Value == nil {
+						okEnum = false
+						continue
+					}
+					v := f.Info.Types[x.Rhs[i]].Value.ExactString()
+					if x.Tok == token.DEFINE && initVal == "" {
+						initVal = v
+					} else {
+						vals[v] = true
+					}
+				}
+			case *ast.ValueSpec:
+				for i, id := range x.Names {
+					if f.Info.Defs[id] == so {
+						initVal = "0"
+						if i < len(x.Values) && f.Info.Types[x.Values[i]].Value != nil {
+							initVal = f.Info.Types[x.Values[i]].Value.ExactString()
+						}
+					}
+				}
+			}
+			return true
+		})
+		delete(vals, initVal)
+		if !okEnum || initVal == "" || len(vals) != 1 || d.taken[so] {
+			c.Undecide("R-C02-3", cons+"|END is reported to the caller", pos(c, fd), "the flow function reports END through an enum whose 'ended' value cannot be identified (expected: an initial constant and exactly one other constant assigned)")
+			return
+		}
+		for v := range vals {
+			a.endedExact = v
+		}
+		saw = c02FlagOf(f, sawID, a.endedExact)
+		sawKey = saw.key
+	}
 	// When Handle sits in a helper, the facts of the loop function are judged where the helper is
 	// entered (the helper cannot assign the loop function's locals) and remembered as events.
 	const (
@@ -1353,7 +1414,7 @@ func c02FlowLoop(c *core.Ctx, a *c02Anchors) {
 			if ast.Node(call) == hs && st.Is(evIn, flow.True) {
 				st.Set(evSnapPending, boolToVal(val(st, kNextEmpty) == flow.True || isTrue(st, aliasKeys)))
 				st.Set(evSnapNotEnd, boolToVal(len(endKeys) > 0 && isFalseAll(st, endKeys)))
-				st.Set(evSnapSawF, boolToVal(sawKey != "" && st.Is(sawKey, flow.False)))
+				st.Set(evSnapSawF, boolToVal(saw.is(st, flow.False)))
 			}
 			if fo, ok := callee.(*types.Func); ok && fo.FullName() == useNS {
 				good := false
@@ -1430,7 +1491,7 @@ func c02FlowLoop(c *core.Ctx, a *c02Anchors) {
 		if !((len(endKeys) > 0 && isFalseAll(st, endKeys)) || st.Is(evNotEnd, flow.True) || (viaHelper && st.Is(evSnapNotEnd, flow.True))) && badEnd == nil {
 			badEnd = st
 		}
-		if sawKey != "" && !(st.Is(sawKey, flow.False) || (viaHelper && st.Is(evSnapSawF, flow.True))) && badSaw == nil {
+		if sawKey != "" && !(saw.is(st, flow.False) || (viaHelper && st.Is(evSnapSawF, flow.True))) && badSaw == nil {
 			badSaw = st
 		}
 	}
@@ -1482,7 +1543,7 @@ func c02FlowLoop(c *core.Ctx, a *c02Anchors) {
 		bv := flow.Unknown
 		if fieldForm {
 			// the outputs are the fields themselves
-			bv = st.Get(sawKey)
+			bv = saw.get(st)
 		} else {
 			if ex.Return == nil || len(ex.Return.Results) != sig.Results().Len() {
 				badRet = ex
@@ -1493,9 +1554,13 @@ func c02FlowLoop(c *core.Ctx, a *c02Anchors) {
 			}
 			be := ex.Return.Results[boolIdx]
 			if tv := f.Info.Types[be]; tv.Value != nil {
-				bv = boolToVal(constant.BoolVal(tv.Value))
+				if flagEnum {
+					bv = boolToVal(tv.Value.ExactString() == a.endedExact)
+				} else {
+					bv = boolToVal(constant.BoolVal(tv.Value))
+				}
 			} else if id, ok := ast.Unparen(be).(*ast.Ident); ok {
-				bv = st.Get(f.VarKey(id))
+				bv = c02FlagOf(f, id, a.endedExact).get(st)
 			}
 		}
 		if st.Is(evIn, flow.True) {
@@ -1583,7 +1648,7 @@ func (d *c02Defs) aliasDeep(e ast.Expr) ast.Expr {
 
 // c02Namespace: no other code switches the active namespace.
 func c02Namespace(c *core.Ctx, a *c02Anchors, useNS string) {
-	actF := structField(c, "pkg/context", "Context", "activeNs")
+	actF := c02ActiveNsField(c)
 	if actF == nil {
 		return
 	}
